@@ -39,7 +39,10 @@ RULE_ADDED = (
               "s) by solving for the certifier's key. "
               ' '
               'Round 11: elements carrying members the format does not define (extract, value, '
-              'pubkey, type ...). ')
+              'pubkey, type ...). '
+              ' '
+              'Round 12: tweaks of zero bytes / 0xff; elements that declare a tweak but are sig'
+              'ned with the untweaked key. ')
 RULE = RULE + " " + RULE_ADDED.strip()
 ASSUMPTIONS = [
     "oracle: pv/oracle/certv1.py (own secp256k1 arithmetic, ECDSA by cryptography/OpenSSL); "
@@ -57,7 +60,8 @@ CORRUPTIONS = ["flip-message", "flip-signature", "flip-tweak", "flip-key", "swap
                "reparent", "wrong-root", "root-is-inner-key", "high-s", "truncate-signature",
                "signature-trailing-byte", "flip-signature-structure",
                "flip-signature-structure", "certifier-key-with-extra-bytes",
-               "certifier-key-with-extra-bytes", "extra-members", "extra-members"]
+               "certifier-key-with-extra-bytes", "extra-members", "extra-members",
+               "signed-by-the-untweaked-key", "signed-by-the-untweaked-key"]
 
 
 def shards(tier, seed):
@@ -221,6 +225,17 @@ def corrupt(rng, doc, info, kind):
         if "tweak" in el:
             sk = g.tweaked_key(sk, bytes.fromhex(el["tweak"]))
         el["signature"] = g.sign(sk, m, rng).hex()
+    elif kind == "signed-by-the-untweaked-key":
+        # an element that declares a tweak but is signed with the certifier's key as it is:
+        # the declared derivation is part of what is checked
+        cands = [e for e in els.values() if "tweak" in e]
+        if not cands:
+            return None
+        el = rng.choice(cands)
+        name = el["name"]
+        p_ = info["parents"][name]
+        sk = info["root"] if p_ == "root" else info["keys"][p_]
+        el["signature"] = g.sign(sk, bytes.fromhex(el["message"]), rng).hex()
     elif kind == "extra-members":
         # members the format does not define, on one element or on all: they say nothing
         # about what is signed or by whom - verdicts and values stay what they are
